@@ -7,7 +7,6 @@
      pycoin/coins/bcash|bgold|groestlcoin/SolutionChecker.py   the overrides
      pycoin/coins/bitcoin/Tx.py, TxIn.py, TxOut.py  Tx.stream(include_witness_data=False), Tx.hash(hash_type)
      pycoin/coins/groestlcoin/Tx.py            Tx.hash with single SHA-256
-     pycoin/vm/ScriptTools.py                  get_opcodes (the pc loop)
    The instruction decoder is the finished C12 model (Model/Push.v).
    Every constant comes from Gen/GenSighashC04.v (regenerated from /repo on every run).
    Python ints that the code packs are N here (negative values are outside the model);
@@ -23,22 +22,27 @@ Record txout := mk_txout { to_value : N; to_script : bytes }.
 Record tx := mk_tx { tx_version : N; tx_ins : list txin; tx_outs : list txout; tx_lock : N;
                      tx_unspents : list (option txout) }.
 
-(* ---- ScriptTools.get_opcodes + delete_subscript ------------------------------------------------
-   for opcode, data, pc, new_pc in get_opcodes(script):       # while pc < len(script): get_opcode; pc = new_pc
+(* ---- BitcoinSolutionChecker.delete_subscript (after /repo commit 50939fb) ---------------------------
+   pc = 0
+   while pc < len(script):
+       opcode, data, new_pc, is_ok = scriptStreamer.get_opcode(script, pc)
+       if not is_ok: new_script.extend(script[pc:]); break        # the rest is kept as it is
        section = script[pc:new_pc]
        if section != subscript: new_script.extend(section)
-   The walk does NOT stop at a malformed instruction (is_ok is ignored): it goes on at the new_pc
-   the decoder reports.  fuel: new_pc > pc always, so len(script) iterations suffice (proved). *)
+       pc = new_pc
+   fuel: new_pc > pc always, so len(script) iterations suffice (proved). *)
 Fixpoint delete_walk (fuel : nat) (script sub : bytes) (pc : nat) : outcome bytes :=
   if (length script <=? pc)%nat then Ret []
   else match fuel with
        | O => OutOfFuel
        | S f =>
          match btc_get_opcode script pc false with
-         | Ret (_, _, new_pc, _) =>
-           let section := slice pc new_pc script in
-           do rest <- delete_walk f script sub new_pc;
-           Ret (if bytes_eqb section sub then rest else section ++ rest)
+         | Ret (_, _, new_pc, is_ok) =>
+           if is_ok then
+             let section := slice pc new_pc script in
+             do rest <- delete_walk f script sub new_pc;
+             Ret (if bytes_eqb section sub then rest else section ++ rest)
+           else Ret (skipn pc script)
          | Raise e => Raise e
          | OutOfFuel => OutOfFuel
          end
@@ -46,9 +50,9 @@ Fixpoint delete_walk (fuel : nat) (script sub : bytes) (pc : nat) : outcome byte
 Definition delete_subscript (script sub : bytes) : outcome bytes :=
   delete_walk (length script) script sub 0.
 
-(* _delete_signature (after /repo commit 2ba5b6d): the pattern is the PLAIN push of the blob —
+(* _delete_signature (/repo commits 2ba5b6d, 50939fb): the pattern is the PLAIN push of the blob —
      size < 76: bytes([size]);  <= 0xFF: 4c size;  <= 0xFFFF: 4d size.to_bytes(2,"little");
-     else 4e size.to_bytes(4,"little")  (OverflowError from 2^32 on) — then the same get_opcodes walk *)
+     else 4e size.to_bytes(4,"little")  (OverflowError from 2^32 on) — then self.delete_subscript(script, subscript) *)
 Definition plain_push (blob : bytes) : outcome bytes :=
   let size := N.of_nat (length blob) in
   if size <? 76 then Ret (n2b size :: blob)
